@@ -132,6 +132,13 @@ pub fn host_label() -> impl Strategy<Value = Vec<u8>> {
         1 => "\\*[a-zA-Z0-9_-]{1,6}".prop_map(|s| s.into_bytes()),
         2 => "[a-zA-Z0-9_][a-zA-Z0-9_.-]{0,10}".prop_map(|s| s.into_bytes()),
         1 => "[a-zA-Z0-9_.][a-zA-Z0-9_.-]{61,62}".prop_map(|s| s.into_bytes()),
+        // letters, digits and hyphens that happen to start with the ACE prefix: mostly not valid
+        // punycode (still host-style names), and two that are
+        1 => prop_oneof![
+            4 => "xn--[a-z0-9][a-z0-9-]{0,8}".prop_map(|s| s.into_bytes()),
+            1 => Just(b"xn--bcher-kva".to_vec()),
+            1 => Just(b"xn--nxasmq6b".to_vec()),
+        ],
     ]
 }
 
